@@ -15,12 +15,13 @@
     digit counts and the THREE decompositions the evaluator uses exactly as coded
     (`externalProduct32Bit`, `externalProductInPlaceSinglePAndBitDecomp`,
     `externalProductInPlaceMultipleP`), the rounded division by `P` (`ModDownQPtoQNTT`), and the
-    word-level accumulator of the 32-bit path.
+    word-level accumulator of the 32-bit path with its guard `acc32BitFits`.
 
   Rows are kept in a FLAT list in the storage order of the code (`i` = RNS digit outer, `j` = base-2
   digit inner).  Sampled values are INPUTS.  Everything is in the canonical representation
   (coefficient domain, out of the Montgomery domain); the Montgomery bookkeeping of the code is
-  invisible there EXCEPT in the branch without auxiliary modulus, see `encZeroNoP`.
+  invisible there (since 103d60d also in the branch without auxiliary modulus, where
+  `rlwe.Encryptor.encryptZeroSkFromC1` used to leave the error outside the Montgomery domain).
 -/
 import Lattigo.Model.RPoly
 import Lattigo.Word
@@ -36,16 +37,10 @@ variable {α : Type} [Add α] [Mul α] [Neg α] [Sub α]
 /-- phase (decryption before decoding) of a degree-1 ciphertext -/
 def phase (ct : α × α) (s : α) : α := ct.1 + ct.2 * s
 
-/-- `rlwe.Encryptor.encryptZeroSkFromC1QP` (auxiliary modulus present): `c1 = a` uniform,
-    `c0 = e − a·s`; the error is moved to the Montgomery domain like everything else. -/
+/-- `rlwe.Encryptor.encryptZeroSkFromC1QP` (auxiliary modulus present) and `encryptZeroSkFromC1`
+    (branch `LevelP() == -1` of `rgsw.Encryptor.EncryptZero`): `c1 = a` uniform, `c0 = e − a·s`; the
+    error is moved to the Montgomery domain like everything else. -/
 def encZero (a e s : α) : α × α := (e - a * s, a)
-
-/-- The branch `LevelP() == -1` of `rgsw.Encryptor.EncryptZero` calls `rlwe.Encryptor.EncryptZero` on
-    an `*rlwe.Ciphertext`, i.e. `encryptZeroSkFromC1`, which does NOT move the error to the
-    Montgomery domain, while the rows are afterwards used (and the message is added) as
-    Montgomery-domain values.  In the canonical representation the error therefore appears as
-    `ρ e`, `ρ` = multiplication by the ring constant `2^{-64} mod q_i` (`mulRinv` below). -/
-def encZeroNoP (ρ : α → α) (a e s : α) : α × α := (ρ e - a * s, a)
 
 /-- `AddPolyTimesGadgetVectorToGadgetCiphertext`, `u = 0`: the message goes to component 0 -/
 def addMsg0 (z : α × α) (m : α) : α × α := (z.1 + m, z.2)
@@ -112,12 +107,8 @@ end generic
 
 /-! ## Digit counts (core/rlwe/params.go) -/
 
-/-- `int(math.Round(math.Log2(float64(q))))` as an exact integer criterion
-    (`round(log2 q) = k+1` iff `q² ≥ 2^(2k+1)`, `k = ⌊log2 q⌋`; no tie for an integer `q`).
-    [IEEE hypothesis monitored by the ties: the shape of every ciphertext is part of the tie.] -/
-def roundLog2 (q : Nat) : Nat :=
-  let k := Nat.log2 q
-  if q * q ≥ 2 ^ (2 * k + 1) then k + 1 else k
+/-- `bits.Len64(q)` -/
+def bitLen (q : Nat) : Nat := if q = 0 then 0 else Nat.log2 q + 1
 
 /-- parameters of one RGSW ciphertext: the moduli of its levels, ring degree, `BaseTwoDecomposition` -/
 structure Par where
@@ -137,9 +128,9 @@ def bigP (p : Par) : Nat := RPoly.prod p.qsP
 def rnsSize (p : Par) : Nat :=
   if p.nP = 0 then p.qsQ.length else (p.qsQ.length - 1 + p.nP) / p.nP
 
-/-- `BaseTwoDecompositionVectorSize(levelQ, levelP, w)[i]` -/
+/-- `BaseTwoDecompositionVectorSize(levelQ, levelP, w)[i] = ⌈bitlen(q_i)/w⌉` (since 170d739) -/
 def rowLen (p : Par) (i : Nat) : Nat :=
-  if p.w = 0 ∨ p.nP ≥ 2 then 1 else (roundLog2 (p.qsQ.getD i 1) + p.w - 1) / p.w
+  if p.w = 0 ∨ p.nP ≥ 2 then 1 else (bitLen (p.qsQ.getD i 1) + p.w - 1) / p.w
 
 /-- number of base-2 digits of every RNS digit -/
 def shape (p : Par) : List Nat := (List.range p.rnsSize).map p.rowLen
@@ -173,15 +164,9 @@ def pgElt (p : Par) (i j : Nat) : RPoly :=
 
 def pgList (p : Par) : List RPoly := p.idx.map fun (i, j) => pgElt p i j
 
-/-- multiply row `k` by `(2^64)^{-1} mod q_k` -/
-def mulRinv (a : RPoly) : RPoly :=
-  RPoly.mapRows (fun q x => let r := RPoly.modInv (W % q) q; x.map fun c => c * r % q) a
-
-/-- `rgsw.Encryptor.Encrypt` over `R_QP` for a secret key: with auxiliary modulus the rows are proper
-    Montgomery-domain encryptions; without, the error keeps the factor `2^{-64}` (as coded). -/
-def encryptR (p : Par) (repaired : Bool) (s g : RPoly) (smp0 smp1 : List (RPoly × RPoly)) : Ct RPoly :=
-  if p.nP = 0 ∧ !repaired then encrypt (encZeroNoP mulRinv) s g (pgList p) smp0 smp1
-  else encrypt encZero s g (pgList p) smp0 smp1
+/-- `rgsw.Encryptor.Encrypt` over `R_QP` for a secret key -/
+def encryptR (p : Par) (s g : RPoly) (smp0 smp1 : List (RPoly × RPoly)) : Ct RPoly :=
+  encrypt encZero s g (pgList p) smp0 smp1
 
 /-- `X^alpha − 1` in `R_QP` -/
 def xPowMinusOne (p : Par) (alpha : Nat) : RPoly :=
@@ -193,20 +178,16 @@ def xPowMinusOne (p : Par) (alpha : Nat) : RPoly :=
 def natsToPoly (qs : List Nat) (v : List Nat) : RPoly :=
   { qs := qs, c := qs.map fun q => v.map fun x => x % q }
 
-/-- `ring.MaskVec(row, j·w, mask, ·)`: base-`2^w` digit `j` of every coefficient (`allOnes`: the
-    general path replaces a zero mask by `0xFFFF…`, i.e. the digit is the whole coefficient) -/
-def maskDigit (w j : Nat) (allOnes : Bool) (row : List Nat) : List Nat :=
-  if w = 0 then (if allOnes then row else row.map fun _ => 0)
-  else row.map fun x => (x / 2 ^ (j * w)) % 2 ^ w
+/-- `ring.MaskVec(row, j·w, mask, ·)`: base-`2^w` digit `j` of every coefficient; for `w = 0` both paths
+    replace the zero mask by `0xFFFF…`, i.e. the single digit is the whole coefficient -/
+def maskDigit (w j : Nat) (row : List Nat) : List Nat :=
+  if w = 0 then row else row.map fun x => (x / 2 ^ (j * w)) % 2 ^ w
 
-/-- digits of `externalProductInPlaceSinglePAndBitDecomp` (`levelP < 1`): NOT centred, lifted to
-    every modulus of QP by `NTTLazy(cw)` (the same small integer modulo each prime) -/
+/-- digits of `externalProductInPlaceSinglePAndBitDecomp` (`levelP < 1`) and of `externalProduct32Bit`
+    (single modulus, no `P`): NOT centred, lifted to every modulus of QP by `NTTLazy(cw)` (the same small
+    integer modulo each prime) -/
 def digitsBit (p : Par) (c : RPoly) : List RPoly :=
-  p.idx.map fun (i, j) => natsToPoly p.qsQP (maskDigit p.w j true (c.c.getD i []))
-
-/-- digits of `externalProduct32Bit`: `mask = (1 << w) − 1` (zero for `w = 0`: every digit vanishes) -/
-def digits32 (p : Par) (c : RPoly) : List RPoly :=
-  (List.range (p.rowLen 0)).map fun j => natsToPoly p.qsQP (maskDigit p.w j false (c.c.getD 0 []))
+  p.idx.map fun (i, j) => natsToPoly p.qsQP (maskDigit p.w j (c.c.getD i []))
 
 /-- `Decomposer.DecomposeAndSplit` for one coefficient of RNS digit group `qs`/`rs`: the centred
     representative as coded (single modulus: negative iff `x ≥ q>>1`; several moduli:
@@ -244,32 +225,26 @@ def modDown (qsQ qsP : List Nat) (x : RPoly) : RPoly :=
 
 def takeQ (qsQ : List Nat) (x : RPoly) : RPoly := { qs := qsQ, c := x.c.take qsQ.length }
 
-/-- is the 32-bit path taken (`levelQ == 0 && levelP == -1 && q>>29 == 0`) -/
-def fast32 (p : Par) : Bool := p.nP == 0 && p.qsQ.length == 1 && p.qsQ.getD 0 0 / 2 ^ 29 == 0
+/-- `acc32BitFits(q, d)`: the guard of the 32-bit path: `q < 2^29` and the `2·d` unreduced products of a
+    stored value (`< q`) and an `NTTLazy` output (`≤ 6q−2`) stay below `2^64` -/
+def acc32Fits (q d : Nat) : Bool :=
+  q / 2 ^ 29 == 0 && 1 ≤ d && 2 * d ≤ (W - 1) / ((q - 1) * (6 * q - 2))
+
+/-- is the 32-bit path taken (`levelQ == 0 && levelP == -1 && acc32BitFits(q, #digits)`) -/
+def fast32 (p : Par) : Bool :=
+  p.nP == 0 && p.qsQ.length == 1 && acc32Fits (p.qsQ.getD 0 0) (p.rowLen 0)
 
 /-- the decomposition the evaluator applies to one ciphertext component -/
 def digitsOf (p : Par) (c : RPoly) : List RPoly :=
-  if fast32 p then digits32 p c else if p.nP ≤ 1 then digitsBit p c else digitsGroup p c
+  if p.nP ≤ 1 then digitsBit p c else digitsGroup p c
 
-/-- `Evaluator.ExternalProduct(op0, op1, op0)` (in place), canonical level.  On the 32-bit path the
-    result is the exact ring value, i.e. the code's value whenever its 64-bit accumulator does not
-    wrap (`acc32`, `Props.C20.path_eq`). -/
+/-- `Evaluator.ExternalProduct(op0, op1, opOut)`, in place or not, canonical level.  On the 32-bit path
+    (`fast32`) the code accumulates on 64-bit words (`acc32`); its guard makes that accumulation exact
+    (`Props.C20.path_eq_guarded`), so the result is the exact ring value on every path. -/
 def extProdR (p : Par) (ct : RPoly × RPoly) (rg : Ct RPoly) : RPoly × RPoly :=
   let zero := RPoly.zero p.qsQP p.n
   let md : RPoly → RPoly := if p.nP = 0 then takeQ p.qsQ else modDown p.qsQ p.qsP
   extProd md zero (digitsOf p ct.1) (digitsOf p ct.2) rg
-
-/-- `Evaluator.ExternalProduct(op0, op1, opOut)` with `opOut ≠ op0`, AS CODED: with `levelP ≥ 1` the
-    inner product is accumulated in `BuffQP[1]`, `BuffQP[2]` but the division by `P` reads its Q part
-    from `opOut.Value[·]` (`c0QP.Q`), i.e. from the PREVIOUS content `old` of the output. -/
-def extProdOutOfPlaceR (p : Par) (ct : RPoly × RPoly) (rg : Ct RPoly) (old : RPoly × RPoly) :
-    RPoly × RPoly :=
-  if p.nP ≥ 2 then
-    let zero := RPoly.zero p.qsQP p.n
-    let u := extProdLazy zero (digitsOf p ct.1) (digitsOf p ct.2) rg
-    let mix (o x : RPoly) : RPoly := { qs := p.qsQP, c := o.c.take p.qsQ.length ++ x.c.drop p.qsQ.length }
-    (modDown p.qsQ p.qsP (mix old.1 u.1), modDown p.qsQ p.qsP (mix old.2 u.2))
-  else extProdR p ct rg
 
 /-! ### Word level: the accumulator of `externalProduct32Bit` -/
 
